@@ -1,0 +1,13 @@
+//go:build verif
+
+package face
+
+import "net"
+
+// NewVerifStreamFace returns a StreamFace that runs over the given connection instead of dialing.
+func NewVerifStreamFace(conn net.Conn) *StreamFace {
+	f := NewStreamFace("verif", "", true)
+	f.conn = conn
+	f.running.Store(true)
+	return f
+}
